@@ -468,19 +468,20 @@ cleanup = REG.unit(Unit(
 ))
 cleanup.contract.ghost_params = ("s0", "c0")
 cleanup.loops = {
-    1: LoopSpec("ip-rules", index="_a", invariants=[("max-interval-is-a-number", "max_interval >= 0")]),
-    2: LoopSpec("scopes", index="_b", invariants=[
+    # loops keyed by the iterated expression, not by ordinal: adding or removing a loop elsewhere does not shift them
+    "self.rules['ip'].values()": LoopSpec("ip-rules", index="_a", invariants=[]),
+    "self.recent_commands.items()": LoopSpec("scopes", index="_b", invariants=[
         ("kept-or-cleared", "dq(self.recent_commands, s0, c0) == old(dq(self.recent_commands, s0, c0)) or len(dq(self.recent_commands, s0, c0)) == 0"),
         ("global-untouched", "dq(self.recent_commands, b'global', c0) == old(dq(self.recent_commands, b'global', c0))"),
         ("never-schedules-global", "all_range(0, len(to_del), lambda i: to_del[i] != 'global')"),
     ]),
-    3: LoopSpec("commands", index="_c", invariants=[
+    "commands.items()": LoopSpec("commands", index="_c", invariants=[
         ("kept-or-cleared", "dq(self.recent_commands, s0, c0) == old(dq(self.recent_commands, s0, c0)) or len(dq(self.recent_commands, s0, c0)) == 0"),
         ("global-untouched", "dq(self.recent_commands, b'global', c0) == old(dq(self.recent_commands, b'global', c0))"),
         ("not-the-global-scope", "ip != 'global'"),
         ("never-schedules-global", "all_range(0, len(to_del), lambda i: to_del[i] != 'global')"),
     ]),
-    4: LoopSpec("deletions", index="_d", invariants=[
+    "to_del": LoopSpec("deletions", index="_d", invariants=[
         ("kept-or-cleared", "dq(self.recent_commands, s0, c0) == old(dq(self.recent_commands, s0, c0)) or len(dq(self.recent_commands, s0, c0)) == 0"),
         ("global-untouched", "dq(self.recent_commands, b'global', c0) == old(dq(self.recent_commands, b'global', c0))"),
         ("never-deletes-global", "all_range(0, len(to_del), lambda i: to_del[i] != 'global')"),
